@@ -85,11 +85,12 @@ func (x *Exec) callStatic(fr *Frame, st *State, fn *ssa.Function, args []*SV, fr
 		return
 	}
 	// unknown external: havoc
-	x.notes = append(x.notes, "unknown external havocked: "+key)
 	if x.eng.pureExternal(key) {
+		x.notes = append(x.notes, "external assumed pure (result unconstrained): "+shortKey(key))
 		k(st, fr, x.freshOfType(st, "ext."+fn.Name(), fn.Signature.Results()))
 		return
 	}
+	x.notes = append(x.notes, "unknown external havocked: "+key)
 	x.havocCall(fr, st, fn.Signature, site, k)
 }
 
@@ -106,6 +107,11 @@ func (x *Exec) callDynamic(fr *Frame, st *State, cc *ssa.CallCommon, fv *SV, arg
 	if con := x.eng.typeContract(cc.Value.Type()); con != nil {
 		all := append([]*SV{fv}, args...)
 		x.applyContractNamed(fr, st, con, con.ParamNames, all, cc.Signature().Results(), site, k)
+		return
+	}
+	if kind := x.eng.dynCallKind(fr.fn, cc.Value.Type()); kind == "pure" {
+		x.notes = append(x.notes, "assumed pure (dyncall directive): calls through "+cc.Value.Type().String())
+		k(st, fr, x.freshOfType(st, "dyn", cc.Signature().Results()))
 		return
 	}
 	x.notes = append(x.notes, "dynamic call havocked: "+cc.Value.Type().String())
@@ -198,6 +204,11 @@ func (x *Exec) havocModifies(st *State, con *Contract, env *Env) {
 	for _, l := range locs {
 		s := x.compSorts[l.comp]
 		c := x.compOf(st.heap, l.comp, s)
+		if l.ref == nil {
+			st.heap.comps[l.comp] = x.w.Fresh("modall."+l.comp, s)
+			x.writes[l.comp] = true
+			continue
+		}
 		_, es := s.ArrayParts()
 		x.setComp(st.heap, l.comp, Store(c, l.ref, x.w.Fresh("mod."+l.comp, es)))
 		x.writes[l.comp] = true
